@@ -160,7 +160,7 @@ def harness(ctx):
     exe, log = ctx.cc('h_isr', [H + '/h_isr.c', R + '/librfn/list.c', R + '/librfn/messageq.c', R + '/librfn/util.c', R + '/librfn/posix/time_posix.c'],
                       ['-I' + H + '/shim', '-I' + R + '/librfn'])
     if not exe:
-        raise vlib.Infra('interrupt-script harness does not compile against the repository: ' + log[-1500:])
+        raise vlib.Unbuildable('interrupt-script harness does not compile against the repository: ' + log[-1500:])
     return exe
 
 
